@@ -283,12 +283,12 @@ SEND = f"{ASH}:AshProtocol._send_data_frame"
 ACK_OUTCOMES = Outcomes(OK(True), RAISE("NotAcked"), RAISE("NcpFailure"), RAISE("TimeoutError"), RAISE("CancelledError"))
 
 
-def explore_send(ctx, tx_seq=5, outcomes=ACK_OUTCOMES, states=("CONNECTED", "FAILED")):
+def explore_send(ctx, tx_seq=5, outcomes=ACK_OUTCOMES, states=("CONNECTED", "FAILED"), extra_models=()):
     repo = ctx.repo
     f = repo.func(SEND)
     cls = ash_cls(ctx)
     ns = repo.cls(ASH, "NcpState").members()
-    px = PX(repo, models=[("await:*", outcomes)], fork_loop_bound=const(ctx, ASH, "ACK_TIMEOUTS", int) + 2,
+    px = PX(repo, models=[("await:*", outcomes)] + list(extra_models), fork_loop_bound=const(ctx, ASH, "ACK_TIMEOUTS", int) + 2,
             inline=inline_ash(stop=("_write_frame", "_cancel_pending_data_frames", "_change_ack_timeout")))
 
     def setup():
@@ -434,6 +434,22 @@ def r05_send_skeleton(ctx):
                               f"(budget {N}); outcomes so far: {[str(e.extra) for e in send_awaits(p)][:12]}", func=f,
                               trace=p.trace(60), construct="R05.1")
                 break
+    # the port is closed (a deliberate close, with this send queued behind another one): the write is refused.  The send fails with
+    # NcpFailure; it must not report an NCP failure upward - a deliberate close produces no controller-reset request
+    f, pxc, cpaths, ns = explore_send(ctx, states=("CONNECTED",), extra_models=[("self._write_frame", Outcomes(RAISE("NcpFailure")))])
+    ctx.anchor(len(cpaths) >= 1, "closed-transport scenario explored no path")
+    for p in cpaths:
+        fails = [e for e in p.events if e.kind == "call" and e.what.endswith("_enter_failed_state")]
+        notif = [e for e in p.events if upward(e)]
+        st = [e for e in p.events if e.kind == "write" and e.what == "self._ncp_state"]
+        bad = None
+        if not p.raised("NcpFailure"):
+            bad = f"ends with {p.terminal} {p.value!r} instead of raising NcpFailure"
+        elif fails or notif or st:
+            bad = f"reports a link failure ({[e.what for e in (fails + notif + st)][:3]}): after a deliberate close the application would get a controller-reset request"
+        elif p.store["self"].get("_pending_data_frames") != {}:
+            bad = f"pending entry left behind: {p.store['self'].get('_pending_data_frames')!r}"
+        ctx.require(not bad, "_send_data_frame:closed-transport", f"write refused because the transport is closed: the send {bad}", func=f, trace=p.trace(40))
     # timeout argument is the adaptive timeout
     for p in paths[:50]:
         for e in p.events:
@@ -852,7 +868,12 @@ STATEFUL = (("bellows.ash", "AshProtocol"), ("bellows.uart", "Gateway"), ("bello
             ("bellows.thread", "EventLoopThread"))
 
 
-@rule("R01.5", ["C01", "C05", "C06", "C10", "C12", "C15", "C17"], "T-WMW", floor=8)
+# which properties a shared object in each class convicts (the class's state serves exactly these)
+STATE_SERVES = {"AshProtocol": ("C01", "C05", "C10"), "Gateway": ("C10", "C11"), "EZSP": ("C06", "C10", "C17"), "ProtocolHandler": ("C06", "C10"),
+                "Multicast": ("C15",), "ControllerApplication": ("C12", "C10"), "ThreadsafeProxy": ("C20",), "EventLoopThread": ("C20",)}
+
+
+@rule("R01.5", ["C01", "C05", "C06", "C10", "C11", "C12", "C15", "C17", "C20"], "T-WMW", floor=8)
 def r01_5(ctx):
     """Per-link / per-connection state is per instance: in the stateful classes (AshProtocol, Gateway, EZSP, ProtocolHandler,
     Multicast, ControllerApplication, the thread helpers) no mutable object - dict, list, set, bytearray, deque, defaultdict,
@@ -898,4 +919,5 @@ def r01_5(ctx):
                     ctx.ok(1, (cname, tgt))
                     continue
                 ctx.require(tgt in init_sets, f"class-level-state:{k.name}.{tgt}", f"{k.name}.{tgt} = {text(val)[:40]} is created once in the class body and not rebound by "
-                            f"__init__: every {cname} instance in the process shares the same object", file=k.node and repo.relpath(k.mod), line=st.lineno)
+                            f"__init__: every {cname} instance in the process shares the same object", file=k.node and repo.relpath(k.mod), line=st.lineno,
+                            props=STATE_SERVES[cname])
